@@ -62,6 +62,10 @@ class RingSystem:
             val = None
         elif self.storage == "empty0":
             val = torch.empty(0)
+        elif self.storage.startswith("empty0:"):  # typed but uninitialised storage: its dtype is the record's own
+            val = torch.empty(0, dtype=DT[self.storage.split(":")[1]])
+        elif self.storage.startswith("uninitbuf:"):
+            val = nn.UninitializedBuffer(dtype=DT[self.storage.split(":")[1]])
         else:
             raise ValueError(self.storage)
         # duration N-1 inclusive gives N slots at dt=1
@@ -71,7 +75,9 @@ class RingSystem:
         st.M = [[0] * self.E for _ in range(N)]
         st.p = 0
         st.step = 0
-        if self.storage == "empty0":
+        if ":" in self.storage:
+            st.dtype = self.storage.split(":")[1]  # documented: the dtype of uninitialised storage is preserved
+        elif self.storage == "empty0":
             st.dtype = "float32"  # documented: dtype of the empty storage is preserved
         elif self.storage == "none":
             st.dtype = self.obs_dtype  # property: adopts the observation's dtype
@@ -369,6 +375,13 @@ def configs(tier):
                     out.append((N, shape, "none", od, 200 if E > 1 else None, full))
                 out.append((N, shape, "empty0", "float32", 200 if E > 1 else None, full))
                 out.append((N, shape, "zeros", "int64", 200 if E > 1 else None, full))
+                if E == 1 or N == 2:
+                    # the record has a dtype of its own although it has no storage yet; observations of another dtype
+                    # (an int64 record fed float observations is left out: out-of-place range writes are documented to
+                    # promote the storage dtype in that direction)
+                    for decl, od in (("float64", "float32"), ("float32", "int64")):
+                        out.append((N, shape, f"empty0:{decl}", od, 200 if E > 1 else None, full))
+                    out.append((N, shape, "uninitbuf:float64", "float32", 200 if E > 1 else None, full))
     return out
 
 
